@@ -75,6 +75,8 @@ def gen_script(rng, maxsel=4, maxwork=10, allow_reinit=True):
         ref.append('CLRERR')
         ref.append('PROBE ' + layers)
     last = (l2 or l1 or l0 or l3 or 'none')
+    if rng.chance(0.4):
+        steps.append('FINI')        # this context is finalised while the others carry on
     return steps, ref, last
 
 
